@@ -3,7 +3,7 @@ from . import smt
 
 
 class State:
-    __slots__ = ("env", "heap", "pc", "cur_exc", "handlers", "notes")
+    __slots__ = ("env", "heap", "pc", "cur_exc", "handlers", "notes", "allocated", "calls")
 
     def __init__(self):
         self.env = {}
@@ -12,6 +12,8 @@ class State:
         self.cur_exc = None
         self.handlers = ()    # tuple of frozensets of exception names expected by enclosing try
         self.notes = ()
+        self.allocated = ()
+        self.calls = 0
 
     def copy(self):
         s = State()
@@ -21,6 +23,8 @@ class State:
         s.cur_exc = self.cur_exc
         s.handlers = self.handlers
         s.notes = self.notes
+        s.allocated = self.allocated
+        s.calls = self.calls
         return s
 
     def assume(self, t):
